@@ -63,6 +63,8 @@ def one_trace(seed, steps):
         elif act == "rename_keys":
             k = rng.choice(keys)
             others = [q for q in KEYS if q not in keys]
+            if rng.random() < 0.3 and len(keys) >= 2:
+                others = [q for q in keys if q != k]          # onto a key that exists: that variable is replaced
             if not others:
                 continue
             args = dict(k=k, n=rng.choice(others))
